@@ -338,7 +338,7 @@ def handle_violation(exe, prop, seed, viol):
     """Minimise, replay in a fresh process, report. Returns (path, text) or
     raises HarnessError when the violation does not reproduce."""
     raw = materialise(exe, prop, seed, viol)
-    code, parsed, err = run_replay(exe, raw)
+    code, parsed, err = run_replay(exe, raw, timeout=(25 if viol["how"] == "hang" else 120))
     reproduced = code in (1, 77, "hang")
     if not reproduced:
         raise HarnessError(
@@ -352,7 +352,14 @@ def handle_violation(exe, prop, seed, viol):
         if r.returncode != 0 or not os.path.exists(mn):
             shutil.copy(raw, mn)
     else:
+        # a hang is not minimised (every candidate would cost a timeout); it
+        # reproduced once from its replay file in a fresh process already
         shutil.copy(raw, mn)
+        try:
+            os.remove(raw)
+        except OSError:
+            pass
+        return mn, describe(viol, None)
     code2, parsed2, err2 = run_replay(exe, mn)
     if code2 not in (1, 77, "hang"):
         # the minimised file must fail the same way in a fresh process;
@@ -416,7 +423,7 @@ def replay_any(prop, path):
     sub = fam.get("substrate")
     if not sub:
         exe = build("dbg")
-        code, parsed, err = run_replay(exe, path)
+        code, parsed, err = run_replay(exe, path, timeout=60)
         if code in (1, 77, "hang"):
             viol = {"how": "trap" if code == 77 else ("hang" if code == "hang" else "report"),
                     "line": " ".join(l for l in (err or "").splitlines() if l.startswith("TRAP"))}
